@@ -7,6 +7,7 @@ package codon
 // verif:bound C07 re-weighting clause: a default table re-weighted from a one-alanine coding sequence, optimised, re-weighted again and optimised again (all 4x4 alanine codon choices, 3x3 stop codons)
 // verif:bound C07 round-trip clause: default tables 1, 2, 11, 27, 31 (quick) / all 25 (thorough), proteins of 1..2 letters over the table's own letters, every value of every rand.Intn draw
 // verif:bound C07 no-crash clause: proteins of 1..2 bytes over all 128 ASCII values on tables 1 and 11: error or a correct result, never a panic
+// verif:bound C07 refusal-then-acceptance clause: a 2-residue protein 'M'+x with x symbolic over A k space J 1 * newline (refused unless it is a table letter), then a protein of 1 (quick) / 1..2 (thorough) table letters optimised in the same process, tables 1 and 11
 // verif:bound C07 threshold clause: one amino acid with 2 (quick) / 3 (thorough) synonymous codons, symbolic weights 0..15 (quick) / 0..63 (thorough): every emitted codon has 10*w > sum(w) and w > 0; an amino acid whose synonyms all have weight 0 is rejected with an error
 // verif:bound C07 random-protein clause: random.ProteinSequence of length 3 (quick) / 3..4 (thorough) for every value of its rand.Intn draws, optimised under tables 1, 11 (quick) / 1, 2, 11, 27, 31 (thorough; length 4 under tables 1 and 27 only); tables without a '*' letter (27, 31) must reject the generator's trailing '*'
 // verif:assume C07 math/rand.Intn(n) returns an arbitrary value in [0,n) and panics for n <= 0; rand.Seed and the clock have no effect
@@ -67,6 +68,34 @@ func Harness_C07_NoCrash() {
 		vAssert(vEqStr(back, p), "translates-back-to-the-protein")
 	}
 	vCover("C07 lower-case residue", vAnd(p[0] >= 'a', p[0] <= 'z'))
+}
+
+// a refused protein leaves nothing behind: the next protein optimised in the same process is
+// answered as if it were the first
+func Harness_C07_RefusedThenAccepted() {
+	id := []int{1, 11}[vChoice(2)]
+	table := GetCodonTable(id)
+	// the first protein: a valid residue followed by an arbitrary byte (refused unless that byte is a table letter)
+	first := "M" + vBytes(1, "Ak J1*\n")
+	n := 1 + vChoice(vTier(1, 2))
+	second := vBytes(n, c07Letters(id))
+	var dna string
+	var err1, err2 error
+	panicked := vPanics(func() {
+		_, err1 = Optimize(first, table)
+		dna, err2 = Optimize(second, table)
+	})
+	vAssert(!panicked, "optimize-does-not-panic")
+	if panicked {
+		return
+	}
+	vAssert(err2 == nil, "encodable-protein-accepted-after-a-refusal")
+	vAssert(len(dna) == 3*n, "three-bases-per-residue-after-a-refusal")
+	if err2 == nil && len(dna) == 3*n {
+		back, _ := Translate(dna, table)
+		vAssert(vEqStr(back, second), "translates-back-to-the-protein-after-a-refusal")
+	}
+	vCover("C07 the first protein was refused", err1 != nil)
 }
 
 func Harness_C07_Threshold() {
